@@ -210,10 +210,16 @@ pub fn run_case(case: &Case) -> RunOutput {
     let decay = case.cfg.act_decay as f32 / 100.0;
 
     macro_rules! drive {
-        ($solver:expr) => {{
+        ($solver:expr, $reconf:expr) => {{
             let mut solver = $solver;
             let mut dead = false;
             for (idx, p) in case.ps.iter().enumerate() {
+                // in every other history the solver is re-configured between two solves (the
+                // builder methods take and return the solver): the cache and the ability to
+                // solve must survive that
+                if idx > 0 && !dead && case.id % 2 == 0 {
+                    solver = ($reconf)(solver);
+                }
                 lines.push(begin_line(case, idx, p));
                 if dead {
                     // the solver object is unusable after a panic
@@ -297,11 +303,18 @@ pub fn run_case(case: &Case) -> RunOutput {
             widths: widths.clone(),
             blockons: Rc::new(Cell::new(0)),
         };
-        drive!(Solver::new(provider)
-            .with_runtime(rt)
-            .with_activity_params(add, decay));
+        let rt2 = rt.clone();
+        drive!(
+            Solver::new(provider).with_runtime(rt).with_activity_params(add, decay),
+            |s: Solver<TableProvider, GateRuntime>| s.with_runtime(rt2.clone()).with_activity_params(add, decay)
+        );
     } else {
-        drive!(Solver::new(provider).with_activity_params(add, decay));
+        drive!(
+            Solver::new(provider).with_activity_params(add, decay),
+            |s: Solver<TableProvider, resolvo::runtime::NowOrNeverRuntime>| s
+                .with_runtime(resolvo::runtime::NowOrNeverRuntime)
+                .with_activity_params(add, decay)
+        );
     }
 
     if case.cfg.whitebox {
